@@ -93,6 +93,8 @@ impl MaybeGuardedDuration {
     dict(kind="struct", file=T, name="Timer"),
     dict(kind="struct", file=T, name="TimerGuard"),
     dict(kind="struct", file=T, name="Stopwatch"),
+    dict(kind="fn", file=T, impl=r"^impl Default for MaybeGuardedDuration$", name="default", ret="r", label="MaybeGuardedDuration::default",
+         ensures="r.excl() && r.val() is None,"),
     dict(kind="fn", file=T, impl=r"^impl MaybeGuardedDuration$", name="take", ret="r", label="MaybeGuardedDuration::take",
          ensures="""
             old(self).excl() ==> r == old(self).val() && final(self).excl() && final(self).val() is None,
@@ -133,7 +135,7 @@ pub open spec fn span_ok(start: Option<Instant>, self_time: Option<Duration>, r:
     dict(kind="fn", file=T, impl=r"^impl TimerGuard < '_ >$", name="overwrite", label="TimerGuard::overwrite",
          rules={}, 
          requires="self.timer.excl(),",
-         proofs=[("after", "self . timer . take ( ) ;", "proof { assert(self.timer.val() is None); /* OBL overwrite_clears_total_before_drop */ }")]),
+         proofs=[("end", "", "proof { assert(self.timer.excl() && self.timer.val() is None); /* OBL overwrite_clears_total_before_drop */ }")]),
     dict(kind="fn", file=T, impl=r"^impl TimerGuard < '_ >$", name="discard", label="TimerGuard::discard",
          rules={"R7": 1},
          proofs=[("end", "", "proof { assert(!guard_has_span(__s.start, __s.self_time)); /* OBL discard_forgets_span */ }")]),
